@@ -14,10 +14,12 @@ from __future__ import annotations
 import ast
 import io
 import keyword
+import re
 import token as T
 import tokenize
 import unicodedata
 
+_ROW = re.compile(r"[^\r\n]*(?:\r\n|\r|\n)|[^\r\n]+")
 _SKIP = (T.NEWLINE, T.NL, T.INDENT, T.DEDENT, T.ENDMARKER, T.COMMENT)
 COMMENT = "# c'(\""
 
@@ -30,12 +32,13 @@ class Src:
         self._toks = None
         self._tree = None
         self._starts = None
+        self._rows = None
 
     @property
     def starts(self):
         if self._starts is None:
             s, o = [0], 0
-            for ln in self.text.splitlines(keepends=True):
+            for ln in self.rows:
                 o += len(ln)
                 s.append(o)
             self._starts = s
@@ -43,7 +46,10 @@ class Src:
 
     @property
     def rows(self):
-        return self.text.splitlines(keepends=True)
+        """Physical lines as CPython's tokenizer counts them (\n, \r\n and \r end a line; \f, \v do not)."""
+        if self._rows is None:
+            self._rows = _ROW.findall(self.text)
+        return self._rows
 
     def off(self, pos):
         """(row, col) in characters (tokenize convention) -> absolute offset."""
@@ -546,7 +552,7 @@ def r_indent(src):
     if not any(d for _, d, _ in ls):
         return
     rows = src.rows
-    for unit in (" ", "  ", "        ", "\t", "   \t"):
+    for unit in (" ", "\t", "  ", "        ", "   \t"):
         new = list(rows)
         for row, d, col in ls:
             new[row - 1] = unit * d + rows[row - 1][col:]
@@ -616,9 +622,14 @@ def r_bracket_newline(src):
 def r_eol(src):
     t = src.text
     yield t.replace("\n", "\r\n")
-    yield t.replace("\n", "\r")
     if t.endswith("\n"):
         yield t[:-1]
+    yield t.replace("\n", "\r")
+
+
+def r_edges(src):
+    t = src.text
+    if t.endswith("\n"):
         yield t[:-1] + "  "
         yield t[:-1] + " " + COMMENT
         yield t[:-1] + "\\\n"
@@ -628,7 +639,7 @@ def r_eol(src):
     yield "\n\n" + t
     yield "\f" + t
     yield "#!/usr/bin/env python\n# -*- coding: utf-8 -*-\n" + t
-    yield "﻿" + t
+    yield "\ufeff" + t
     yield t.replace("\n", " \n")
     yield t.replace("\n", "\n\n")
 
@@ -675,20 +686,28 @@ RULES = {
     "backslash": (r_backslash, "site"),
     "bracket-newline": (r_bracket_newline, "site"),
     "eol": (r_eol, "global"),
+    "edges": (r_edges, "global"),
     "elif": (r_elif, "site"),
 }
-LIGHT = ("compact", "spaced", "paren-remove", "with-parens", "import-parens", "indent", "inline-body", "eol", "elif")
+# the light catalogue (for the bulk of the larger canonical programs): rule -> max instances taken
+LIGHT = {"compact": 1, "paren-remove": 99, "with-parens": 2, "import-parens": 2, "inline-body": 1, "indent": 2, "eol": 2, "elif": 99}
 
 
-def rewrites(text, rules=None):
-    """Yield (rule name, new text) for every instance of every rule, in catalogue order."""
+def rewrites(text, rules=None, light=False):
+    """Yield (rule name, new text) for every instance of every rule, in catalogue order.  With
+    `light` only the LIGHT rules run, each limited to its first LIGHT[rule] instances."""
     src = Src(text)
-    for name in rules or RULES:
+    for name in LIGHT if light else (rules or RULES):
         fn = RULES[name][0]
+        limit = LIGHT[name] if light else None
+        n = 0
         try:
             for new in fn(src):
                 if new != text:
                     yield name, new
+                    n += 1
+                    if limit is not None and n >= limit:
+                        break
         except (IndexError, ValueError, AttributeError, RecursionError):
             # a rule tripped over an odd token layout: it simply has no (further) instance here
             continue
